@@ -1,39 +1,73 @@
 package main
 
-// Probe at the excluded point of the size cap of theorem C02_refines_spec: one compressed
+// The excluded point of the size cap of theorem C02_refines_spec on the real code: one compressed
 // meta-block with a single insert-and-copy block type and MORE than 2^24 commands.
-// The Lean specification gives a single-type block category a count of 2^24 and fails when it is
-// used up; brotli.Reader (typeLen = -1) does not count. What does libbrotlidec do?
+// RFC 7932 gives a single-type block category a block count of 16777216 and no block-switch code;
+// the Lean specification fails when that count is used up; brotli.Reader (typeLen = -1) does not
+// count at all. What does libbrotlidec do?
 //
-// Stream: WBITS = 24; one last meta-block, MLEN = 2^24; one block type per category; literal code
-// = the one symbol 'x' (zero bits); insert-and-copy code = two symbols (one bit): B = insert 0 /
-// copy 4, A = insert 1 / copy 4, both with an explicit distance; distance code = all 64 symbols
-// with 6 bits. Every copy refers to the static dictionary with transform 34 (OmitFirst4) on a
-// four-byte word: the empty string. Commands: B (no output), then 2^24 times A (one literal each;
-// the last A ends the meta-block with its literal). 2^24 + 1 commands, 2^24 bytes of output.
+// Stream (generated on the fly, never held in memory): WBITS = 24; one last meta-block, MLEN = nA;
+// one block type per category; literal code = the one symbol 'x' (zero bits); insert-and-copy code
+// = two symbols (one bit): B = insert 0 / copy 4, A = insert 1 / copy 4, both with an explicit
+// distance; distance code = all 64 symbols with 6 bits. Every copy refers to the static dictionary
+// with transform 34 (OmitFirst4) on a four-byte word: the empty string. Commands: nB1 times B (no
+// output), nA-1 times A (one literal each), nB2 times B, one last A whose literal ends the
+// meta-block: nB1 + nA + nB2 commands, nA bytes of output.
 
 import (
-	"bytes"
 	"fmt"
 	"io"
+	"math/bits"
 	"time"
 
 	"github.com/dsnet/compress/brotli"
 	cbrotli "github.com/dsnet/compress/internal/cgo/brotli"
 )
 
-func probeCapStream(ncmdA int) []byte {
+// fastW packs LSB-first bit fields and hands full chunks to an io.Writer.
+type fastW struct {
+	out io.Writer
+	buf []byte
+	acc uint64
+	n   uint
+	err error
+}
+
+func (f *fastW) put(v uint64, nb uint) {
+	f.acc |= v << f.n
+	f.n += nb
+	for f.n >= 8 {
+		f.buf = append(f.buf, byte(f.acc))
+		f.acc >>= 8
+		f.n -= 8
+	}
+	if len(f.buf) >= 1<<16 {
+		f.flush()
+	}
+}
+
+func (f *fastW) flush() {
+	if f.err == nil && len(f.buf) > 0 {
+		_, f.err = f.out.Write(f.buf)
+	}
+	f.buf = f.buf[:0]
+}
+
+// rev returns the n-bit prefix-code word v (first bit = most significant) as an LSB-first field.
+func rev(v uint32, n uint) uint64 { return uint64(bits.Reverse32(v) >> (32 - n)) }
+
+func capStreamTo(out io.Writer, nB1, nA, nB2 int) error {
 	w := &bitW{}
 	w.bit(1)
 	w.bits(7, 3) // WBITS = 24
 	w.bit(1)     // ISLAST
 	w.bit(0)     // ISLASTEMPTY
 	nib := uint(4)
-	for (ncmdA-1)>>(4*nib) > 0 {
+	for (nA-1)>>(4*nib) > 0 {
 		nib++
 	}
 	w.bits(uint64(nib-4), 2) // MNIBBLES
-	w.bits(uint64(ncmdA-1), 4*nib)
+	w.bits(uint64(nA-1), 4*nib)
 	w.bit(0) // NBLTYPESL = 1
 	w.bit(0) // NBLTYPESI = 1
 	w.bit(0) // NBLTYPESD = 1
@@ -51,47 +85,92 @@ func probeCapStream(ncmdA int) []byte {
 		items = append(items, clItem{6, 0})
 	}
 	pd := writeComplex(w, items, 0)
-	window := 1<<24 - 16
-	putDist := func(out int) {
-		hist := min(out, window)
-		dist := hist + 1 + 34<<10
-		dsym, dex, nbits := 0, 0, uint(0)
-		for nb := uint(1); nb <= 24; nb++ {
-			for h := 0; h < 2; h++ {
-				off := ((2 + h) << nb) - 4
-				if off <= dist-1 && dist-1 < off+(1<<nb) {
-					dsym, dex, nbits = 16+2*int(nb-1)+h, dist-1-off, nb
-				}
-			}
-		}
-		pd.put(w, dsym)
-		w.bits(uint64(dex), nbits)
+	// hand the header over to the fast packer
+	f := &fastW{out: out}
+	full := int(w.nbit / 8)
+	for _, b := range w.buf[:full] {
+		f.put(uint64(b), 8)
 	}
-	pc.put(w, cmdB)
-	putDist(0)
-	for j := 1; j <= ncmdA; j++ {
-		pc.put(w, cmdA)
-		if j < ncmdA {
-			putDist(j)
-		}
+	if rem := w.nbit % 8; rem > 0 {
+		f.put(uint64(w.buf[full])&(1<<rem-1), rem)
 	}
-	w.align()
-	return w.buf
+	aBits, aLen := rev(pc.code[cmdA][0], uint(pc.code[cmdA][1])), uint(pc.code[cmdA][1])
+	bBits, bLen := rev(pc.code[cmdB][0], uint(pc.code[cmdB][1])), uint(pc.code[cmdB][1])
+	var dBits [64]uint64
+	var dLen [64]uint
+	for s := 0; s < 64; s++ {
+		dBits[s], dLen[s] = rev(pd.code[s][0], uint(pd.code[s][1])), uint(pd.code[s][1])
+	}
+	const window = 1<<24 - 16
+	putDist := func(produced int) {
+		dist := min(produced, window) + 1 + 34<<10
+		// dist-1 in [((2+h)<<nb)-4, +1<<nb)
+		x := uint(dist - 1 + 4)
+		nb := uint(bits.Len(x)) - 2
+		h := int(x>>nb) & 1
+		off := ((2 + h) << nb) - 4
+		sym := 16 + 2*int(nb-1) + h
+		f.put(dBits[sym], dLen[sym])
+		f.put(uint64(dist-1-off), nb)
+	}
+	produced := 0
+	for i := 0; i < nB1; i++ {
+		f.put(bBits, bLen)
+		putDist(produced)
+	}
+	for j := 1; j < nA; j++ {
+		f.put(aBits, aLen)
+		produced++
+		putDist(produced)
+	}
+	for i := 0; i < nB2; i++ {
+		f.put(bBits, bLen)
+		putDist(produced)
+	}
+	f.put(aBits, aLen) // its literal ends the meta-block
+	if f.n > 0 {
+		f.put(0, 8-f.n)
+	}
+	f.flush()
+	return f.err
 }
 
-func probeCap() {
-	for _, n := range []int{70000, 1<<24 - 1, 1 << 24} {
-		t0 := time.Now()
-		in := probeCapStream(n)
-		fmt.Printf("stream with %d+1 commands, MLEN=%d: %d bytes (built in %.1fs)\n", n, n, len(in), time.Since(t0).Seconds())
-		t0 = time.Now()
-		zr, _ := brotli.NewReader(bytes.NewReader(in), nil)
-		nout, err := io.Copy(io.Discard, zr)
-		fmt.Printf("  dsnet brotli.Reader: %d bytes, err=%v, InputOffset=%d (%.1fs)\n", nout, err, zr.InputOffset, time.Since(t0).Seconds())
-		t0 = time.Now()
-		cr := cbrotli.NewReader(bytes.NewReader(in))
-		lout, lerr := io.Copy(io.Discard, cr)
+type countW struct{ n int64 }
+
+func (c *countW) Write(p []byte) (int, error) { c.n += int64(len(p)); return len(p), nil }
+
+// capRun feeds the generated stream to a decoder through a pipe; returns bytes delivered and the error.
+func capRun(nB1, nA, nB2 int, lib bool) (int64, error) {
+	pr, pw := io.Pipe()
+	go func() { pw.CloseWithError(capStreamTo(pw, nB1, nA, nB2)) }()
+	var n int64
+	var err error
+	if lib {
+		cr := cbrotli.NewReader(pr)
+		n, err = io.Copy(io.Discard, cr)
 		cr.Close()
-		fmt.Printf("  libbrotlidec:        %d bytes, err=%v (%.1fs)\n", lout, lerr, time.Since(t0).Seconds())
+	} else {
+		zr, _ := brotli.NewReader(pr, nil)
+		n, err = io.Copy(io.Discard, zr)
+	}
+	pr.CloseWithError(io.ErrClosedPipe) // release the generator if the decoder stopped early
+	return n, err
+}
+
+var probeCases = [][3]int{{1, 70000, 0}, {1, 1<<24 - 1, 0}, {1, 1 << 24, 0}}
+
+func probeCap() {
+	for _, c := range probeCases {
+		var cw countW
+		t0 := time.Now()
+		capStreamTo(&cw, c[0], c[1], c[2])
+		fmt.Printf("B x %d, A x %d, B x %d, A: %d commands, MLEN=%d, %d bytes (generated in %.1fs)\n",
+			c[0], c[1]-1, c[2], c[0]+c[1]+c[2], c[1], cw.n, time.Since(t0).Seconds())
+		t0 = time.Now()
+		n, err := capRun(c[0], c[1], c[2], false)
+		fmt.Printf("  dsnet brotli.Reader: %d bytes, err=%v (%.1fs)\n", n, err, time.Since(t0).Seconds())
+		t0 = time.Now()
+		n, err = capRun(c[0], c[1], c[2], true)
+		fmt.Printf("  libbrotlidec:        %d bytes, err=%v (%.1fs)\n", n, err, time.Since(t0).Seconds())
 	}
 }
